@@ -1,6 +1,7 @@
 package alter
 
 import (
+	"fmt"
 	"time"
 
 	"zvh/dbk"
@@ -62,6 +63,15 @@ func hasName(fs []FDef, name string) int {
 	return -1
 }
 
+func hasNameS(ns []string, name string) int {
+	for i, n := range ns {
+		if n == name {
+			return i
+		}
+	}
+	return -1
+}
+
 func copyDefs(fs []FDef) []FDef { return append([]FDef(nil), fs...) }
 
 // mutate derives the next definition from the current one.
@@ -69,7 +79,37 @@ func mutate(r *hk.Rng, cur []FDef, pool []FDef, avgAlt *FDef, hit func(string)) 
 	next := copyDefs(cur)
 	kinds := r.Range(1, 2)
 	for k := 0; k < kinds; k++ {
-		switch r.Intn(7) {
+		switch r.Intn(8) {
+		case 7: // replace: remove k fields and add at least k others in ONE schema application
+			k := r.Range(1, 2)
+			if k >= len(next) {
+				k = 1
+			}
+			if len(next) < 2 {
+				break
+			}
+			var removed []string
+			for n := 0; n < k; n++ {
+				i := r.Intn(len(next))
+				removed = append(removed, next[i].Name)
+				next = append(next[:i], next[i+1:]...)
+			}
+			added := 0
+			for _, p := range pool {
+				if added > k || (added == k && r.Bool()) {
+					break
+				}
+				if hasName(next, p.Name) < 0 && hasNameS(removed, p.Name) < 0 {
+					pos := r.Intn(len(next) + 1)
+					next = append(next[:pos], append([]FDef{p}, next[pos:]...)...)
+					added++
+				}
+			}
+			for ; added < k; added++ {
+				o := gen.ExprOpts{Fields: valueFields, MaxDepth: 1, NoShift: true, NoUnary: true}
+				next = append(next, FDef{Name: fmt.Sprintf("g%d", r.Intn(1000)), Node: gen.GenLeaf(r, o)})
+			}
+			hit("alter:replace(remove-k-add-at-least-k)")
 		case 0: // permutation
 			for i := len(next) - 1; i > 0; i-- {
 				j := r.Intn(i + 1)
@@ -282,6 +322,184 @@ func names(fs []FDef) []string {
 	return out
 }
 
+// genTargeted generates histories of the shape of corpus 02 (D14a) and 07: data on disk, one
+// schema application that removes fields — alone, together with fewer additions, or as a
+// REPLACE (remove k, add at least k) — with an empty (or not) memstore, an interlude without a
+// data flush, then the removed fields added again with the same name and expression, scanned
+// alone, filled, flushed and restarted.  Every fourth generated case and the whole search phase
+// (mode "targeted") use it.
+func genTargeted(r *hk.Rng, tier string, hit func(string)) *Script {
+	b := Base{}
+	b.Res = hk.Pick(r, []time.Duration{time.Second, 5 * time.Second, time.Minute})
+	b.Retention = b.Res * time.Duration(hk.Pick(r, []int{10, 50, 200}))
+	switch r.Intn(3) {
+	case 0:
+		b.GroupBy = nil
+	case 1:
+		b.GroupBy = []string{"d"}
+	default:
+		b.GroupBy = []string{"d", "g"}
+	}
+	pool, _ := genPool(r, b.Res)
+	o := gen.ExprOpts{Fields: valueFields, MaxDepth: 1, NoShift: true, NoUnary: true}
+	fresh := 0
+	newField := func() FDef {
+		fresh++
+		return FDef{Name: fmt.Sprintf("g%d", fresh), Node: gen.GenLeaf(r, o)}
+	}
+	sc := &Script{Base: b, WhereC: -1}
+	nInit := r.Range(2, 3)
+	if nInit > len(pool) {
+		nInit = len(pool)
+	}
+	sc.Fields = copyDefs(pool[:nInit])
+	spare := copyDefs(pool[nInit:])
+	takeSpare := func() FDef {
+		if len(spare) > 0 && r.Chance(2, 3) {
+			f := spare[0]
+			spare = spare[1:]
+			return f
+		}
+		return newField()
+	}
+	cur := copyDefs(sc.Fields)
+	where := -1
+	now := dbk.Base
+	ingest := func(n int) {
+		for ; n > 0; n-- {
+			ts := now.Add(time.Duration(r.Range(0, int(b.Res/time.Millisecond))) * time.Millisecond)
+			if r.Chance(1, 4) {
+				ts = now.Add(time.Duration(r.Range(1, 3)) * b.Res)
+			}
+			if ts.After(now) {
+				now = ts
+			}
+			p := genPoint(r, ts)
+			// make sure the fields in play get values
+			for _, f := range valueFields {
+				if _, ok := p.Vals[f]; !ok && r.Chance(2, 3) {
+					p.Vals[f] = float64(r.Range(1, 9))
+				}
+			}
+			sc.Ops = append(sc.Ops, Op{Kind: "ingest", P: &p})
+		}
+	}
+	insertAt := func(fs []FDef, f FDef) []FDef {
+		pos := r.Intn(len(fs) + 1)
+		return append(fs[:pos:pos], append([]FDef{f}, fs[pos:]...)...)
+	}
+	alter := func(next []FDef, nw int) {
+		sc.Ops = append(sc.Ops, Op{Kind: "alter", Fields: copyDefs(next), WhereC: nw})
+		cur, where = copyDefs(next), nw
+	}
+
+	ingest(r.Range(2, 5))
+	if r.Chance(3, 4) {
+		sc.Ops = append(sc.Ops, Op{Kind: "flush"})
+		hit("targeted:remove-with-empty-memstore")
+	} else {
+		hit("targeted:remove-with-data-in-memstore")
+	}
+	// the removal
+	k := 1
+	if len(cur) >= 3 && r.Chance(1, 3) {
+		k = 2
+	}
+	next := copyDefs(cur)
+	var victims []FDef
+	for n := 0; n < k; n++ {
+		i := r.Intn(len(next))
+		victims = append(victims, next[i])
+		next = append(next[:i:i], next[i+1:]...)
+	}
+	adds := 0
+	switch c := r.Intn(20); {
+	case c < 12: // replace: at least as many additions as removals
+		adds = k + r.Intn(2)
+		hit("targeted:replace(remove-k-add-at-least-k)")
+	case c < 17: // plain removal
+		hit("targeted:plain-removal")
+	default: // fewer additions than removals
+		adds = k - 1
+		hit("targeted:remove-more-than-add")
+	}
+	for n := 0; n < adds; n++ {
+		next = insertAt(next, takeSpare())
+	}
+	if len(next) == 0 {
+		next = []FDef{takeSpare()}
+	}
+	nw := where
+	if r.Chance(1, 6) {
+		nw = r.Range(-1, len(gen.Conds)-1)
+	}
+	alter(next, nw)
+	// interlude without a forced flush
+	for n := r.Intn(3); n > 0; n-- {
+		switch r.Intn(5) {
+		case 0, 1:
+			ingest(r.Range(1, 2))
+			hit("targeted:interlude-inserts")
+		case 2:
+			alter(cur, r.Range(-1, len(gen.Conds)-1))
+			hit("targeted:interlude-where-only-alter")
+		case 3:
+			alter(insertAt(copyDefs(cur), takeSpare()), where)
+			hit("targeted:interlude-adding-alter")
+		default:
+			p := copyDefs(cur)
+			for i := len(p) - 1; i > 0; i-- {
+				j := r.Intn(i + 1)
+				p[i], p[j] = p[j], p[i]
+			}
+			alter(p, where)
+			hit("targeted:interlude-permuting-alter")
+		}
+	}
+	if r.Chance(1, 12) {
+		sc.Ops = append(sc.Ops, Op{Kind: "restart"})
+		hit("targeted:interlude-restart")
+	}
+	// the re-add: same name, same expression
+	next = copyDefs(cur)
+	var readded []string
+	for i, v := range victims {
+		if i == 0 || r.Bool() {
+			next = insertAt(next, v)
+			readded = append(readded, v.Name)
+		}
+	}
+	if len(next) > 2 && r.Chance(1, 4) {
+		// ... while something else goes (the count may stay the same or shrink)
+		for i := range next {
+			if hasNameS(readded, next[i].Name) < 0 {
+				next = append(next[:i:i], next[i+1:]...)
+				break
+			}
+		}
+	}
+	alter(next, where)
+	sc.Ops = append(sc.Ops, Op{Kind: "iterate", Sel: readded, Mem: true, Note: "only-added"})
+	ingest(r.Intn(3))
+	sc.Ops = append(sc.Ops, Op{Kind: "iterate", Mem: true}, Op{Kind: "flush"}, Op{Kind: "iterate", Mem: false})
+	if r.Bool() {
+		sc.Ops = append(sc.Ops, Op{Kind: "restart"})
+	}
+	ingest(r.Intn(2))
+	sc.Ops = append(sc.Ops, Op{Kind: "iterate", Mem: true}, Op{Kind: "iterate", Mem: false})
+	return sc
+}
+
+// genCase is THE map from (seed, index, mode) to a history: every fourth case is a targeted one.
+func genCase(seed, idx uint64, mode, tier string, hit func(string)) *Script {
+	r := hk.Derive(seed, idx)
+	if mode == "targeted" || idx%4 == 3 {
+		hit("generator:targeted(remove/replace-then-re-add)")
+		return genTargeted(r, tier, hit)
+	}
+	return genScript(r, tier, hit)
+}
+
 // ---------------------------------------------------------------- hand-made histories
 
 func sum(name, field string) FDef {
@@ -353,6 +571,28 @@ func Witnesses() map[string]*Script {
 			{Kind: "alter", Fields: []FDef{avg("x", "b", &gen.Node{Kind: "field", Name: "a"}), sum("c", "c"), sum("a", "a")}, WhereC: -1},
 			{Kind: "ingest", P: pt(1, "x", f(4, 11, 1))},
 			{Kind: "iterate", Mem: true}, {Kind: "restart"}, {Kind: "iterate", Mem: true}}},
+		// replace-then-re-add (seeded regression "spare the rewrite when no column has to be
+		// dropped", decided by field COUNT): ONE schema application removes b and adds c while the
+		// memstore is empty; b added again before any flush that carries data must start empty
+		// (b = 40 from the later points only, not 50), also after the next flush and a restart.
+		"07-replace-then-readd-empty-memstore": {Base: b, Fields: []FDef{sum("a", "a"), sum("b", "b")}, WhereC: -1, Ops: []Op{
+			{Kind: "ingest", P: pt(1, "x", f(1, 10))}, {Kind: "ingest", P: pt(1, "y", f(2, 20))}, {Kind: "flush"},
+			{Kind: "alter", Fields: []FDef{sum("a", "a"), sum("c", "c")}, WhereC: -1},
+			{Kind: "ingest", P: pt(2, "x", f(1, 0, 3))},
+			{Kind: "alter", Fields: []FDef{sum("b", "b"), sum("a", "a"), sum("c", "c")}, WhereC: -1},
+			{Kind: "iterate", Sel: []string{"b"}, Mem: true, Note: "only-added"},
+			{Kind: "ingest", P: pt(1, "x", f(1, 40))},
+			{Kind: "iterate", Mem: true}, {Kind: "flush"}, {Kind: "iterate", Mem: false},
+			{Kind: "restart"}, {Kind: "iterate", Mem: true}}},
+		// the same with the re-add directly after the replace (both with an empty memstore) and
+		// two fields replaced by two
+		"08-replace-two-by-two-then-readd": {Base: b, Fields: []FDef{sum("a", "a"), sum("b", "b"), sum("c", "c")}, WhereC: -1, Ops: []Op{
+			{Kind: "ingest", P: pt(1, "x", f(1, 10, 100))}, {Kind: "flush"},
+			{Kind: "alter", Fields: []FDef{sum("a", "a"), sum("m", "b"), sum("n", "c")}, WhereC: -1},
+			{Kind: "alter", Fields: []FDef{sum("a", "a"), sum("m", "b"), sum("n", "c"), sum("c", "c"), sum("b", "b")}, WhereC: -1},
+			{Kind: "iterate", Sel: []string{"c", "b"}, Mem: true, Note: "only-added"},
+			{Kind: "ingest", P: pt(2, "x", f(1, 4, 5))},
+			{Kind: "iterate", Mem: true}, {Kind: "flush"}, {Kind: "restart"}, {Kind: "iterate", Mem: true}}},
 		// permutation + insertion + deletion around the wide column, WHERE change, restart
 		"05-permute-add-remove-ptile-where": {Base: b, Fields: []FDef{sum("a", "a"), {Name: "pt", Ptile: true}, sum("b", "b")}, WhereC: -1, Ops: []Op{
 			{Kind: "ingest", P: pt(1, "x", f(1, 5))}, {Kind: "ingest", P: pt(1, "y", f(2, 6))}, {Kind: "flush"},
